@@ -359,3 +359,72 @@ def gen_frames(rng, k, with_groups=True):
         fields = [f"35={mtype}", "49=SND", "56=TGT", f"34={i + 1}", "52=20240101-00:00:00.000"] + flatten(tree)
         frames.append(ref_frame(fields))
     return frames
+
+
+# ------------------------------------------------------------------ the real reader task
+class _ChunkReader:
+    def __init__(self, chunks):
+        self.chunks = list(chunks)
+
+    async def read(self, n):
+        import asyncio
+
+        if not self.chunks:
+            raise asyncio.CancelledError()
+        return self.chunks.pop(0)
+
+
+def run_reader(chunks, max_steps=100000):
+    """Run the REAL AsyncFIXConnection.socket_read_task over the given reads (bytes objects;
+    must be non-empty: an empty read means EOF to the task).  Returns the canonical reply
+    `buf <hex> <flag> D <mtype> <cont> <raw> …` comparable with the driver's `codec.feed`."""
+    import asyncio
+    import logging
+
+    from asyncfix.connection import AsyncFIXConnection, ConnectionState
+    from asyncfix.journaler import Journaler
+
+    logging.disable(logging.CRITICAL)
+    delivered = []
+    flag = ["-"]
+
+    class Conn(AsyncFIXConnection):
+        async def _process_message(self, msg, raw):
+            delivered.append((str(msg.msg_type), tok_tree(tree_of(msg)), raw))
+            if len(delivered) > max_steps:
+                flag[0] = "stalled"
+                raise asyncio.CancelledError()
+
+    conn = Conn(proto(), "S", "T", Journaler(), "h", 1, 30)
+    conn._connection_state = ConnectionState.ACTIVE
+    conn._socket_reader = _ChunkReader(chunks)
+
+    class _Log:
+        def exception(self, *a, **k):
+            import sys
+            e = sys.exc_info()[1]
+            if flag[0] == "-":
+                flag[0] = "raised:" + type(e).__name__
+            conn._socket_reader.chunks.clear()
+
+        def debug(self, *a, **k):
+            pass
+        info = warning = error = debug
+
+    conn.log = _Log()
+    asyncio.run(conn.socket_read_task())
+    ds = "".join(" D %s %s %s" % (C.cp(mt), ct, C.cp(raw)) for mt, ct, raw in delivered)
+    return "buf %s %s%s" % (C.cp(conn._msg_buffer), flag[0], ds)
+
+
+def partitions_1cut(n):
+    return [[i] for i in range(1, n)]
+
+
+def split_at(stream: bytes, cuts):
+    out, prev = [], 0
+    for c in list(cuts) + [len(stream)]:
+        if c > prev:
+            out.append(stream[prev:c])
+            prev = c
+    return out
